@@ -258,6 +258,37 @@ Route(op, cfg, serial) ==
          ELSE LET d == cfg.devices[CHOOSE i \in ds : TRUE] IN
               [m |-> IF d.proto = "tcp" THEN "SendTCP" ELSE "SendUDP", ip |-> d.addr.ip, port |-> d.addr.port]
 
+\* ---- Discovery (C11) -------------------------------------------------------------------------------
+(* GetDevices returns one entry per well-formed get-device reply, in arrival order, duplicates kept;   *)
+(* malformed datagrams (wrong length, wrong protocol id, wrong function code, non-decimal BCD date)     *)
+(* contribute nothing and never make the call fail. A reply whose date is decimal but not a calendar    *)
+(* date may be dropped or reported with the zero date (C02's rule) - "may".                              *)
+DiscoveryPort(cfg) == IF cfg.broadcast.valid THEN cfg.broadcast.port ELSE 60000
+DgClass(msg) ==
+  LET L == GetDeviceResponse IN
+  IF Len(msg) # 64 \/ msg[1] # 23 \/ msg[2] # L.code THEN "drop"
+  ELSE IF ~AllBcd(Field(msg, 28, 4)) THEN "drop"
+  ELSE IF \E k \in 1..Len(L.fields) : DecodeFields(L, msg)[k].dom # "in" THEN "may" ELSE "must"
+
+EntryOK(cfg, msg, r) ==
+  LET op == "GetDevice" dec == DecodeFields(Rsp[op], msg) IN
+  /\ r.t = "device" /\ M1(op, dec, r.serial, "SerialNumber") /\ M1(op, dec, r.ip, "IpAddress")
+  /\ M1(op, dec, r.mask, "SubnetMask") /\ M1(op, dec, r.gw, "Gateway") /\ M1(op, dec, r.mac, "MacAddress")
+  /\ M1(op, dec, r.version, "Version") /\ M1(op, dec, r.date, "Date")
+  /\ r.name = CfgName(cfg, ValOf(op, dec, "SerialNumber"))
+  /\ r.addr.t = "ap" /\ M1(op, dec, r.addr.ip, "IpAddress") /\ r.addr.port = DiscoveryPort(cfg)
+
+RECURSIVE MatchEntries(_, _, _, _, _)
+MatchEntries(cfg, msgs, i, rs, j) ==
+  IF i > Len(msgs) THEN j > Len(rs)
+  ELSE LET c == DgClass(msgs[i]) IN
+       CASE c = "drop" -> MatchEntries(cfg, msgs, i + 1, rs, j)
+         [] c = "must" -> j <= Len(rs) /\ EntryOK(cfg, msgs[i], rs[j]) /\ MatchEntries(cfg, msgs, i + 1, rs, j + 1)
+         [] c = "may" -> \/ MatchEntries(cfg, msgs, i + 1, rs, j)
+                         \/ (j <= Len(rs) /\ EntryOK(cfg, msgs[i], rs[j]) /\ MatchEntries(cfg, msgs, i + 1, rs, j + 1))
+
+DiscoveryOK(cfg, msgs, ret) == ret.t = "devices" /\ MatchEntries(cfg, msgs, 1, ret.v, 1)
+
 \* SetAddress: controllers do not reply; the call succeeds once the request is sent
 SetAddressResult(a) == [t |-> "result", serial |-> a.serial, ok |-> TRUE]
 ==========================================================================
